@@ -57,9 +57,49 @@ type reopenObs struct {
 	maxKept   string
 }
 
+// fingerprint of a file system image: names, sizes and content digests
+func fsFingerprint(fs vfs.FS) string {
+	names, _ := fs.List("db")
+	sort.Strings(names)
+	var sb strings.Builder
+	for _, n := range names {
+		f, err := fs.Open(fs.PathJoin("db", n))
+		if err != nil {
+			fmt.Fprintf(&sb, "%s:!;", n)
+			continue
+		}
+		st, _ := f.Stat()
+		buf := make([]byte, st.Size())
+		_, _ = f.ReadAt(buf, 0)
+		f.Close()
+		fmt.Fprintf(&sb, "%s:%d:%x;", n, st.Size(), fnv(buf))
+	}
+	return sb.String()
+}
+
+// stableClone copies the frozen file system. Operations that were admitted before the cut may still be executing
+// in other goroutines, and a copy taken while they run is not a state the disk ever was in: copy until two
+// consecutive copies are identical.
+func stableClone(src vfs.FS) (vfs.FS, error) {
+	var prev string
+	for i := 0; i < 200; i++ {
+		dst := vfs.NewMem()
+		if _, err := vfs.Clone(src, dst, "db", "db"); err != nil {
+			return nil, err
+		}
+		fp := fsFingerprint(dst)
+		if i > 0 && fp == prev {
+			return dst, nil
+		}
+		prev = fp
+		time.Sleep(3 * time.Millisecond)
+	}
+	return nil, fmt.Errorf("file system did not settle")
+}
+
 func reopenOn(src vfs.FS, node enode.ID, capMB uint64) reopenObs {
-	dst := vfs.NewMem()
-	if _, err := vfs.Clone(src, dst, "db", "db"); err != nil {
+	dst, err := stableClone(src)
+	if err != nil {
 		return reopenObs{err: "clone:" + err.Error()}
 	}
 	var o reopenObs
@@ -116,11 +156,14 @@ func (o reopenObs) String() string {
 }
 
 func runCrash(o *Out, r *rand.Rand, thorough bool, _ []string) {
-	nHist, maxCuts := 3, 45
+	nHist, maxCuts := 3, 60
 	if thorough {
 		nHist, maxCuts = 25, 400
 	}
 	for h := 0; h < nHist; h++ {
+		// an independent PRNG per history: the number of file-system operations (background compactions) may vary
+		// from run to run and must not shift later histories
+		r := rand.New(rand.NewSource(r.Int63()))
 		var node enode.ID
 		r.Read(node[:])
 		capMB := uint64(1)
@@ -135,6 +178,9 @@ func runCrash(o *Out, r *rand.Rand, thorough bool, _ []string) {
 			n := 60000 + r.Intn(60000) // a prune after about ten puts
 			if r.Intn(4) == 0 {
 				n = r.Intn(3000)
+			}
+			if h == 0 {
+				n = 90000 + r.Intn(20000) // the first history always prunes and passes the 95 % mark
 			}
 			puts = append(puts, crashPut{id, n, r.Intn(1000)})
 		}
@@ -161,9 +207,14 @@ func runCrash(o *Out, r *rand.Rand, thorough bool, _ []string) {
 			cuts = append(cuts, k)
 		}
 		if len(cuts) > maxCuts {
-			r.Shuffle(len(cuts), func(i, j int) { cuts[i], cuts[j] = cuts[j], cuts[i] })
-			cuts = cuts[:maxCuts]
-			sort.Ints(cuts)
+			// keep the last operations (prune, sync) and a spread of the earlier ones
+			var sel []int
+			step := float64(len(cuts)-10) / float64(maxCuts-10)
+			for i := 0; i < maxCuts-10; i++ {
+				sel = append(sel, cuts[int(float64(i)*step)])
+			}
+			sel = append(sel, cuts[len(cuts)-10:]...)
+			cuts = sel
 		}
 		for _, k := range cuts {
 			mem := vfs.NewStrictMem()
